@@ -282,8 +282,7 @@ def transform_harness(spec, mode, props):
         m = spec.make()
         if spec.eval_mode:
             m.eval()
-        m = m.double() if spec.dtype == torch.float32 else m
-        return load_native(m, inp)
+        return load_native(native_cast(m), inp)
 
     def nat_args(inp):
         a = [tt(inp["x"])]
@@ -337,7 +336,7 @@ def transform_harness(spec, mode, props):
             except Exception:
                 c["C12.row-independent"] = False
             m32 = spec.make(); m32.eval() if spec.eval_mode else None
-            m32 = load_native(m32.double(), inp)
+            m32 = load_native(native_cast(m32), inp)
             o64, l64 = (m32.forward if mode == "forward" else m32.inverse)(*a)
             c["C19.dtype"] = o64.dtype == torch.float64 and l64.dtype == torch.float64
             before = [t.clone() for t in a]; sd0 = {k: v.clone() for k, v in m32.state_dict().items()}
